@@ -488,12 +488,25 @@ theorem typeColumn_tab (rows : List FRow) (k : Nat)
       simp only [List.getD_eq_getElem?_getD, hg]
       exact hp
 
+/-- a column of string cells read as text (`converters={"gene": str}`): any strings come back -/
+theorem strColumn_tab (rows : List FRow) (k : Nat)
+    (hstr : ∀ r ∈ rows, ∃ g, r.cols[k]? = some (Cell.str g)) :
+    strColumn (column (3 + k) (rows.map tabLine)) = rows.map (fun r => r.cols.getD k .na) := by
+  unfold strColumn column
+  rw [List.map_map, List.map_map]
+  apply List.map_congr_left
+  intro r hr
+  obtain ⟨g, hg⟩ := hstr r hr
+  simp only [Function.comp_def, tabLine, getD_three]
+  simp only [List.getD_eq_getElem?_getD, List.getElem?_map, hg]
+  rfl
+
 theorem readTab_lines (names : List String) (rows : List FRow)
     (hnames : ∀ n ∈ names, n ≠ "chromosome" ∧ n ≠ "start" ∧ n ≠ "end")
     (hrows : ∀ r ∈ rows, isNA r.chrom = false ∧ r.cols.length = names.length)
     (hcols : ∀ j, j < names.length →
-      (∀ r ∈ rows, ∃ i, r.cols[j]? = some (Cell.int i)) ∨
-      (∀ r ∈ rows, ∃ g, r.cols[j]? = some (Cell.str g) ∧ PlainLabel g)) :
+      (names[j]? ≠ some "gene" ∧ ∀ r ∈ rows, ∃ i, r.cols[j]? = some (Cell.int i)) ∨
+      (∀ r ∈ rows, ∃ g, r.cols[j]? = some (Cell.str g) ∧ (PlainLabel g ∨ names[j]? = some "gene"))) :
     readTab (("chromosome" :: "start" :: "end" :: names) :: rows.map tabLine) =
       .ok { names := names,
             rows := rows.map fun r => ⟨r.chrom, r.s + WRITE_SHIFT_tab + READ_SHIFT_tab, r.e, r.cols⟩ } := by
@@ -565,15 +578,43 @@ theorem readTab_lines (names : List String) (rows : List FRow)
     rw [List.map_map, ← hhdr]
     simp only [Function.comp_def, getD_three]
     exact range_map_getD names "" _ rfl
-  have hextra : ((List.range names.length).map (3 + ·)).map (fun j => typeColumn (column j body)) =
+  have hextra : ((List.range names.length).map (3 + ·)).map (fun j =>
+        if (TAB_GENE_AS_TEXT && hdr.getD j "" == "gene") = true then strColumn (column j body)
+        else typeColumn (column j body)) =
       ((List.range names.length).map (fun k => fun r : FRow => r.cols.getD k .na)).map (fun f => rows.map f) := by
     rw [List.map_map, List.map_map]
     apply List.map_congr_left
     intro k hk
     have hk' : k < names.length := List.mem_range.mp hk
+    have hget : hdr.getD (3 + k) "" = names[k] := by
+      rw [← hhdr, getD_three, List.getD_eq_getElem?_getD, List.getElem?_eq_getElem hk']; rfl
+    have hsome : names[k]? = some names[k] := List.getElem?_eq_getElem hk'
     simp only [Function.comp_def]
-    rw [← hbody]
-    exact typeColumn_tab rows k (hcols k hk')
+    rw [← hbody, hget]
+    by_cases hgene : names[k] = "gene"
+    · -- the gene column is read as text
+      have hcond : (TAB_GENE_AS_TEXT && names[k] == "gene") = true := by
+        simp only [TAB_GENE_AS_TEXT, hgene]; decide
+      rw [if_pos hcond]
+      apply strColumn_tab
+      rcases hcols k hk' with ⟨hng, _⟩ | hstr
+      · exact absurd (by rw [hsome, hgene]) hng
+      · intro r hr
+        obtain ⟨g, hg, _⟩ := hstr r hr
+        exact ⟨g, hg⟩
+    · have hcond : ¬ (TAB_GENE_AS_TEXT && names[k] == "gene") = true := by
+        simp only [TAB_GENE_AS_TEXT, Bool.true_and, beq_iff_eq]; exact hgene
+      rw [if_neg hcond]
+      apply typeColumn_tab
+      rcases hcols k hk' with ⟨_, hint⟩ | hstr
+      · exact Or.inl hint
+      · right
+        intro r hr
+        obtain ⟨g, hg, hp⟩ := hstr r hr
+        rcases hp with hp | hp
+        · exact ⟨g, hg, hp⟩
+        · rw [hsome] at hp
+          exact absurd (Option.some.inj hp) hgene
   have hmk := mkRows_map rows (fun r => r.chrom) (fun r => r.s + WRITE_SHIFT_tab + READ_SHIFT_tab) (fun r => r.e)
     ((List.range names.length).map (fun k => fun r : FRow => r.cols.getD k .na))
   have hrowsEq : (rows.map fun r => (⟨r.chrom, r.s + WRITE_SHIFT_tab + READ_SHIFT_tab, r.e,
@@ -598,7 +639,7 @@ theorem readTab_lines (names : List String) (rows : List FRow)
       rw [List.filter_eq_self]
       intro x hx
       obtain ⟨r, hr, rfl⟩ := List.mem_map.mp hx
-      rcases hcols _ hli with h1 | h1
+      rcases hcols _ hli with ⟨_, h1⟩ | h1
       · obtain ⟨i, hi⟩ := h1 r hr
         simp only [List.getD_eq_getElem?_getD, hi]; rfl
       · obtain ⟨g, hg, _⟩ := h1 r hr
@@ -612,14 +653,16 @@ theorem readTab_lines (names : List String) (rows : List FRow)
   · rw [h1, ite_self]
   · rw [h1]; rfl
 
-/-- tab-separated CNVkit tables whose extra columns hold integers or plain strings -/
+/-- tab-separated CNVkit tables whose extra columns hold integers or plain strings; the column
+    named "gene" is read as text (`TAB_GENE_AS_TEXT`), so it may hold ANY strings, and it must not be
+    an integer column (it would come back as strings) -/
 def WFTab (t : FTab) : Prop :=
   t.names.Nodup ∧ sortNames t.names = t.names ∧
   (∀ n ∈ t.names, n ≠ "chromosome" ∧ n ≠ "start" ∧ n ≠ "end") ∧
   (∀ r ∈ t.rows, isNA r.chrom = false ∧ r.cols.length = t.names.length) ∧
   (∀ j, j < t.names.length →
-      (∀ r ∈ t.rows, ∃ i, r.cols[j]? = some (Cell.int i)) ∨
-      (∀ r ∈ t.rows, ∃ g, r.cols[j]? = some (Cell.str g) ∧ PlainLabel g))
+      (t.names[j]? ≠ some "gene" ∧ ∀ r ∈ t.rows, ∃ i, r.cols[j]? = some (Cell.int i)) ∨
+      (∀ r ∈ t.rows, ∃ g, r.cols[j]? = some (Cell.str g) ∧ (PlainLabel g ∨ t.names[j]? = some "gene")))
 
 /-- tab: writing then reading returns the identical table (coordinates, names, integer columns), sorted -/
 theorem tab_roundtrip (t : FTab) (h : WFTab t) (sel : SampleSel) :
